@@ -26,10 +26,10 @@ var cutWhere = []string{"end-1", "end", "end+1", "mid"}
 
 // plan is the tier's scenario list (a function of tier and seed only).
 func plan(c *lib.Ctx) []Spec {
-	type mix struct{ stall, replay, live, race, cut int }
-	m := mix{1, 8, 5, 6, 20}
+	type mix struct{ stall, replay, live, race, cut, cut2, mid int }
+	m := mix{1, 8, 5, 6, 20, 6, 10}
 	if c.Thorough() {
-		m = mix{8, 300, 200, 200, 1292}
+		m = mix{8, 300, 200, 200, 1292, 150, 300}
 	}
 	h := fnv.New64a()
 	fmt.Fprintf(h, "C11-plan/%d/%s", c.Seed, c.Tier)
@@ -42,6 +42,8 @@ func plan(c *lib.Ctx) []Spec {
 	}
 	add(&kinds, "stall", m.stall) // first: the longest scenarios start at once, one per shard
 	add(&rest, "cut", m.cut)
+	add(&rest, "cut2", m.cut2)
+	add(&rest, "mid", m.mid)
 	add(&rest, "replay", m.replay)
 	add(&rest, "race", m.race)
 	add(&rest, "live", m.live)
@@ -58,6 +60,21 @@ func plan(c *lib.Ctx) []Spec {
 			sp.PerSrc = 6 + rng.Intn(7)
 		case "race":
 			sp.PerSrc = 8 + rng.Intn(9)
+		case "mid":
+			sp.HistLen = 3 + rng.Intn(8)
+			sp.Where = "remove"
+			if rng.Intn(3) == 0 {
+				sp.Where = "chat"
+			}
+		case "cut2":
+			// two operators reset together; the first one's cut point: somewhere in its replay
+			// or (half of them) after it
+			sp.Kind, sp.Second = "cut", true
+			if rng.Intn(2) == 0 {
+				sp.Where, sp.Extra = "live", rng.Int63n(4000)
+			} else {
+				sp.Rec, sp.Where = rng.Intn(cutRecords), cutWhere[rng.Intn(len(cutWhere))]
+			}
 		case "cut":
 			slots := 4*cutRecords + cutLiveSlot
 			e := (cutJ*37 + int(c.Seed%1000)*11) % slots
@@ -137,6 +154,8 @@ func (e *engine) runOnce(sp Spec, bound time.Duration) (o outcome) {
 			o = e.scenLive(sp, true)
 		case "cut":
 			o = e.scenCut(sp)
+		case "mid":
+			o = e.scenMid(sp)
 		case "stall":
 			o = e.scenStall(sp, bound)
 		default:
@@ -215,14 +234,33 @@ func (e *engine) runConfirmed(sp Spec) {
 		}
 		return
 	}
-	hits := map[string]int{}
+	hits, hits2 := map[string]int{}, map[string]int{}
 	var runs [][]string
-	for k := 0; k < 2; k++ {
+	// structural(sig): the candidate is a goroutine-dump / lock-state fact (waiters for a
+	// mutex nobody is going to release), not a bound that ran out. Whether the schedule
+	// that leads there is met again depends on timing, so such a candidate counts as
+	// confirmed once it is seen again in one of up to four fresh teamservers; every other
+	// candidate must show in both of two.
+	structural := func(s string) bool {
+		return s == "wedge:send-blocked-on-client-mutex-nobody-holds" || s == "lock:client-mutex-left-locked-after-failed-write"
+	}
+	need := func() bool {
+		for _, s := range sigs {
+			if structural(s) && hits[s] == 0 {
+				return true
+			}
+		}
+		return false
+	}
+	for k := 0; k < 2 || (k < 4 && need()); k++ {
 		e.dropWorld()
 		o2 := e.runOnce(sp, confirmBound)
 		var got []string
 		for s := range sigSet(o2.findings) {
 			hits[s]++
+			if k < 2 {
+				hits2[s]++
+			}
 			got = append(got, s)
 		}
 		sort.Strings(got)
@@ -232,11 +270,11 @@ func (e *engine) runConfirmed(sp Spec) {
 	e.dropWorld()
 	for _, s := range sigs {
 		f := cands[s]
-		if hits[s] == 2 {
+		if hits2[s] == 2 || (structural(s) && hits[s] >= 1) {
 			e.confirmed[s]++
 			c.Violation(s, f.What, map[string]any{"spec": sp, "detail": f.Det, "info": o.info, "confirm_runs": runs})
 		} else {
-			c.Inconclusive(fmt.Sprintf("%s: candidate %s reproduced %d/2 times in fresh teamservers (%s)", sp.Kind, s, hits[s], f.What))
+			c.Inconclusive(fmt.Sprintf("%s: candidate %s reproduced %d/%d times in fresh teamservers (%s)", sp.Kind, s, hits[s], len(runs), f.What))
 		}
 	}
 }
